@@ -350,8 +350,15 @@ class Check(Property):
                 params = [p for p in sig.parameters.values() if p.name != "self" and p.kind == p.POSITIONAL_OR_KEYWORD]
             except (TypeError, ValueError):
                 params = []
-            for trial in range(6):
-                nreq = len([p for p in params if p.default is p.empty])
+            nreq = len([p for p in params if p.default is p.empty])
+            # deterministic argument lists first: values that are falsy without being None ('' as written by the error paths of
+            # number / offset-quantity, 0, an empty container, an empty tuple) in the last position and in every position
+            fixed = []
+            for k in range(max(nreq, 1), len(params) + 1):
+                for fv in ("", 0, u.UnitsContainer({}), ()):
+                    fixed.append(["meter"] * (k - 1) + [fv])
+                    fixed.append([fv] * k)
+            for trial in range(6 + len(fixed)):
                 nargs = rng.randint(nreq, len(params))
                 args = []
                 for p in params[:nargs]:
@@ -361,6 +368,9 @@ class Check(Property):
                         args.append(rng.choice([str, int, pint.Unit]))
                     else:
                         args.append(rng.choice(pool))
+                if trial >= 6:
+                    fx = fixed[trial - 6]
+                    args = [fx[i] if params[i].name != "definition_type" else str for i in range(len(fx))]
                 try:
                     e = cls(*args)
                     str(e)
